@@ -222,7 +222,7 @@ func hexval(c byte) (byte, bool) {
 }
 
 // RefPayload unescapes a payload written with Go string-literal escapes (as the help text's '\x01\x02\x03').
-// Raw bytes that are not valid UTF-8 are a don't-care (the option is documented for escaped bytes).
+// A raw byte (also one that is not valid UTF-8) denotes itself.
 func RefPayload(s string) ([]byte, Tri) {
 	var out []byte
 	for i := 0; i < len(s); {
@@ -313,7 +313,10 @@ func RefPayload(s string) ([]byte, Tri) {
 		default:
 			r, size := utf8.DecodeRuneInString(s[i:])
 			if r == utf8.RuneError && size == 1 {
-				return nil, Undecided
+				// a raw byte that is not UTF-8 (sx tcp --payload $'\xff'): it denotes itself, like every other unescaped byte
+				out = append(out, c)
+				i++
+				continue
 			}
 			out = append(out, s[i:i+size]...)
 			i += size
